@@ -813,3 +813,49 @@ func (adb *AccountsDB) setStateCheckpoint(rootHash []byte)
   requires collaborators-set: adb.mainTrie != nil && storageOf(adb.mainTrie) != nil
   holds    mutOp
 @*/
+
+/*@
+// ---- C23 (agent O): user account arithmetic --------------------------------------------------------------------------------
+// Balance changes REPLACE the *big.Int held by the account (a new cell is allocated), nonce changes are in place and wrap at 2^64.
+func (a *userAccount) AddToBalance(value *big.Int) (err error)
+  requires balance-set: a.UserAccountData.Balance != nil && value != nil && allocated(a.UserAccountData.Balance)
+  requires package-variable-zero-never-written: zero != nil && big(zero) == 0 && allocated(zero)
+  ensures  refused-iff-negative-result: err != nil <==> old(big(a.UserAccountData.Balance)) + big(value) < 0
+  ensures  added: err == nil ==> big(a.UserAccountData.Balance) == old(big(a.UserAccountData.Balance)) + big(value)
+  ensures  refused-changes-nothing: err != nil ==> a.UserAccountData.Balance == old(a.UserAccountData.Balance) && big(a.UserAccountData.Balance) == old(big(a.UserAccountData.Balance))
+  ensures  never-negative: old(big(a.UserAccountData.Balance)) >= 0 ==> big(a.UserAccountData.Balance) >= 0
+  ensures  argument-untouched: big(value) == old(big(value))
+  ensures  other-fields-untouched: a.UserAccountData.Nonce == old(a.UserAccountData.Nonce) && a.UserAccountData.DeveloperReward == old(a.UserAccountData.DeveloperReward) && a.UserAccountData.UserName == old(a.UserAccountData.UserName) && a.UserAccountData.Address == old(a.UserAccountData.Address) && a.UserAccountData.CodeHash == old(a.UserAccountData.CodeHash) && a.UserAccountData.RootHash == old(a.UserAccountData.RootHash) && a.UserAccountData.CodeMetadata == old(a.UserAccountData.CodeMetadata) && a.UserAccountData.OwnerAddress == old(a.UserAccountData.OwnerAddress)
+  assigns  a.UserAccountData
+
+func (a *userAccount) SubFromBalance(value *big.Int) (err error)
+  requires balance-set: a.UserAccountData.Balance != nil && value != nil && allocated(a.UserAccountData.Balance)
+  requires package-variable-zero-never-written: zero != nil && big(zero) == 0 && allocated(zero)
+  ensures  refused-iff-negative-result: err != nil <==> old(big(a.UserAccountData.Balance)) - big(value) < 0
+  ensures  subtracted: err == nil ==> big(a.UserAccountData.Balance) == old(big(a.UserAccountData.Balance)) - big(value)
+  ensures  refused-changes-nothing: err != nil ==> a.UserAccountData.Balance == old(a.UserAccountData.Balance) && big(a.UserAccountData.Balance) == old(big(a.UserAccountData.Balance))
+  ensures  never-negative: old(big(a.UserAccountData.Balance)) >= 0 ==> big(a.UserAccountData.Balance) >= 0
+  ensures  argument-untouched: big(value) == old(big(value))
+  ensures  other-fields-untouched: a.UserAccountData.Nonce == old(a.UserAccountData.Nonce) && a.UserAccountData.DeveloperReward == old(a.UserAccountData.DeveloperReward) && a.UserAccountData.UserName == old(a.UserAccountData.UserName) && a.UserAccountData.Address == old(a.UserAccountData.Address) && a.UserAccountData.CodeHash == old(a.UserAccountData.CodeHash) && a.UserAccountData.RootHash == old(a.UserAccountData.RootHash) && a.UserAccountData.CodeMetadata == old(a.UserAccountData.CodeMetadata) && a.UserAccountData.OwnerAddress == old(a.UserAccountData.OwnerAddress)
+  assigns  a.UserAccountData
+
+func (a *userAccount) GetBalance() (r *big.Int)
+  requires balance-set: a.UserAccountData.Balance != nil
+  ensures  copy: r != nil && fresh(r) && big(r) == big(a.UserAccountData.Balance)
+  assigns  nothing
+
+func (a *userAccount) IncreaseNonce(value uint64)
+  ensures  advanced-modulo-2-64: a.UserAccountData.Nonce == (old(a.UserAccountData.Nonce) + value) % 18446744073709551616
+  ensures  advanced-exactly-when-no-wrap: old(a.UserAccountData.Nonce) + value < 18446744073709551616 ==> a.UserAccountData.Nonce == old(a.UserAccountData.Nonce) + value
+  ensures  other-fields-untouched: a.UserAccountData.Balance == old(a.UserAccountData.Balance) && big(a.UserAccountData.Balance) == old(big(a.UserAccountData.Balance)) && a.UserAccountData.DeveloperReward == old(a.UserAccountData.DeveloperReward) && a.UserAccountData.UserName == old(a.UserAccountData.UserName) && a.UserAccountData.Address == old(a.UserAccountData.Address) && a.UserAccountData.CodeHash == old(a.UserAccountData.CodeHash) && a.UserAccountData.RootHash == old(a.UserAccountData.RootHash) && a.UserAccountData.CodeMetadata == old(a.UserAccountData.CodeMetadata) && a.UserAccountData.OwnerAddress == old(a.UserAccountData.OwnerAddress)
+  assigns  a.UserAccountData
+
+lemma add-then-sub-restores-balance
+  vars a *userAccount, v *big.Int
+  hyp  a.UserAccountData.Balance != nil && v != nil && big(a.UserAccountData.Balance) >= 0 && big(v) >= 0
+  hyp  zero != nil && big(zero) == 0 && allocated(zero)
+  call e1 = a.AddToBalance(v)
+  call e2 = a.SubFromBalance(v)
+  concl both-accepted: e1 == nil && e2 == nil
+  concl restored: big(a.UserAccountData.Balance) == old(big(a.UserAccountData.Balance))
+@*/
